@@ -31,6 +31,8 @@ class HarrCheck(Check):
         rng = self.rng
         for st in H.corpus_streams(self.prop):
             yield st
+        for st in H.glue_streams(rng, self.tier):
+            yield st
         for st in H.scenario_streams(rng, self.tier):
             yield st
         for st in H.relocation_streams(rng, self.tier):
